@@ -40,6 +40,8 @@ type interpreter struct {
 	tracing            bool
 	reverseMaps        bool
 	freeParseFloat     bool
+	lazyFormat         bool
+	lazyUsed           bool
 	stubs              map[string]int
 	fpUsed             bool
 	// footprint monitor (C19)
@@ -351,6 +353,7 @@ func visitInstr(fr *frame, instr ssa.Instruction) continuation {
 		case array:
 			fr.env[instr] = x[concIndex(idx, len(x))]
 		case string:
+			checkLazy(x)
 			fr.env[instr] = x[concIndex(idx, len(x))]
 		case sstr:
 			fr.env[instr] = x[concIndex(idx, len(x))]
